@@ -79,7 +79,7 @@ def check_find(rep, F, cfg):
         val_id = strip_ref(subpat(subpat(a_obj["pat"], 0), 0)).get("id")
         for arm, recv_ok, nm in ((a_obj, lambda c: q.var_id(c["args"][0]) == val_id, "descend"), (a_root, lambda c: q.var_id(c["args"][0]) == self_id, "root")):
             gets = q.calls(arm["body"], "Object::get")
-            ok = len(gets) == 1 and recv_ok(gets[0]) and q.var_id(gets[0]["args"][1]) == seg_var_id
+            ok = len(gets) == 1 and recv_ok(gets[0]) and seg_var_id in q.alias_sources(body, q.var_id(gets[0]["args"][1]))
             rep.check(ok, "T-FIND", "T-FIND/%s/%s-get%s" % (label, nm, tag), arm["sp"], "%s step looks the segment's own key up on %s" % (nm, "the current object" if nm == "descend" else "self"), "; ".join(show(g) for g in gets))
             if indexed:
                 # the fetched value must be an Array, and the result is a.iter().nth(i)
@@ -93,7 +93,7 @@ def check_find(rep, F, cfg):
                         aid = strip_ref(subpat(subpat(inner[0]["arms"][0]["pat"], 0), 0)).get("id")
                         nth = q.calls(inner[0]["arms"][0]["body"], "Iterator::nth")
                         ok2 = len(nth) == 1 and call_is(peel(nth[0]["args"][0]), "Array::iter") and q.var_id(peel(nth[0]["args"][0])["args"][0]) == aid \
-                            and q.var_id(nth[0]["args"][1]) == idx_var[0] and ret_none(inner[0]["arms"][1]["body"])
+                            and idx_var[0] in q.alias_sources(body, q.var_id(nth[0]["args"][1])) and ret_none(inner[0]["arms"][1]["body"])
                         det = show(inner[0])[:140]
                 rep.check(ok2, "INDEX", "INDEX/%s/%s%s" % (label, nm, tag), arm["sp"], "indexed step requires an Array and takes a.iter().nth(i); anything else => None", det)
             else:
@@ -106,33 +106,42 @@ def check_find(rep, F, cfg):
     # indexed branch locals
     idx_var = [None]
     ib = unblock(idx_b)
-    ilets = [s for s in ib.get("stmts", []) if s["k"] == "Let"] if ib.get("k") == "Block" else []
-    names = [s["pat"].get("name") for s in ilets]
-    rep.check(len(names) == 3, "INDEX", "INDEX/locals" + tag, idx_b["sp"], "indexed branch binds the bracket iterator, the array name and the index", str(names))
-    if len(names) == 3:
-        parts, kk, ii = ilets
-        pid = parts["pat"]["id"]
-        okp = call_is(peel(parts["init"]), "::split") and q.var_id(peel(parts["init"])["args"][0]) == kid and lit(peel(parts["init"])["args"][1]) == ("c", "[")
-        rep.check(okp, "INDEX", "INDEX/split-bracket" + tag, parts["sp"], "parts = segment.split('[')", show(parts["init"]))
-        okk = any(call_is(x, "Iterator::next") and q.var_id(x["args"][0]) == pid for x in walk(kk["init"]))
-        rep.check(okk, "INDEX", "INDEX/name" + tag, kk["sp"], "the array's name is the text before '['", show(kk["init"]))
-        chain = show(ii["init"])
-        oki = any(call_is(x, "Iterator::next") and q.var_id(x["args"][0]) == pid for x in walk(ii["init"])) and str(chain).count("and_then(") == 2
-        c0 = F.fn("value::Object::find::{closure#0}")
-        c1 = F.fn("value::Object::find::{closure#1}")
-        s0 = show(c0.body) if c0 else ""
-        s1 = show(c1.body) if c1 else ""
-        oki = oki and s0 == '<impl str>::strip_suffix(i, "]")' and s1 == "<T, E>::ok(<impl str>::parse(i))" and c1 is not None and any("usize" in (x.get("gen") or [""])[0] for x in walk(c1.body) if call_is(x, "::parse"))
-        rep.check(oki, "INDEX", "INDEX/parse" + tag, ii["sp"], "i = parts.next() stripped of ']' parsed as usize; failure => None", "%s | %s | %s" % (chain[:80], s0, s1))
-        # failure of the parse returns None (either `?` or an explicit match)
-        init = peel(ii["init"])
+    # roles in the indexed branch, found by what the values are (not where the lets sit):
+    #   parts = segment.split('['); name = parts.next() unwrapped; index = parts.next() stripped of ']' and parsed; parts.next() again for exhaustion
+    plets = [s for x in walk(idx_b) if x.get("k") == "Block" for s in x["stmts"] if s["k"] == "Let" and s.get("init") is not None and call_is(peel(s["init"]), "::split")
+             and lit(peel(s["init"])["args"][1]) == ("c", "[") and q.base_var(peel(s["init"])["args"][0], idx_b) == kid]
+    rep.check(len(plets) == 1, "INDEX", "INDEX/locals" + tag, idx_b["sp"], "the indexed branch splits the segment at '['", "%d split('[') lets" % len(plets))
+    if len(plets) == 1:
+        parts = plets[0]
+        pid = strip_ref(parts["pat"]).get("id")
+        rep.ok("INDEX", "INDEX/split-bracket" + tag, parts["sp"], "parts = segment.split('[')", show(parts["init"]))
+        nexts = [x for x in walk(idx_b) if call_is(x, "Iterator::next") and q.base_var(x["args"][0], idx_b) == pid]
+
+        def let_of(call):
+            hs = [s for x in walk(idx_b) if x.get("k") == "Block" for s in x["stmts"] if s["k"] == "Let" and s.get("init") is not None and strip_ref(s["pat"]).get("k") == "Bind" and any(y is call for y in walk(s["init"]))]
+            return hs[0] if hs else None
+        kk = let_of(nexts[0]) if nexts else None
+        ii = let_of(nexts[1]) if len(nexts) > 1 else None
+        okk = kk is not None and (call_is(peel(kk["init"]), "::expect") or call_is(peel(kk["init"]), "::unwrap")) and peel(peel(kk["init"])["args"][0]) is nexts[0]
+        rep.check(okk, "INDEX", "INDEX/name" + tag, kk["sp"] if kk else idx_b["sp"], "the array's name is the text before '['", show(kk["init"]) if kk else "-")
+        oki = False
+        chain = "-"
+        s0 = s1 = ""
+        if ii is not None:
+            chain = show(ii["init"])
+            clos = [x["def"] for x in walk(ii["init"]) if x.get("k") == "Closure"]
+            c0 = F.fns.get(clos[0]) if len(clos) == 2 else None
+            c1 = F.fns.get(clos[1]) if len(clos) == 2 else None
+            s0 = show(c0.body, ren={strip_ref(c0.thir["params"][-1]["pat"]).get("name"): "i"}) if c0 else ""
+            s1 = show(c1.body, ren={strip_ref(c1.thir["params"][-1]["pat"]).get("name"): "i"}) if c1 else ""
+            oki = str(chain).count("and_then(") == 2 and s0 == '<impl str>::strip_suffix(i, "]")' and s1 == "<T, E>::ok(<impl str>::parse(i))" and c1 is not None and any("usize" in (x.get("gen") or [""])[0] for x in walk(c1.body) if call_is(x, "::parse"))
+        rep.check(oki, "INDEX", "INDEX/parse" + tag, ii["sp"] if ii else idx_b["sp"], "i = parts.next() stripped of ']' parsed as usize; failure => None", "%s | %s | %s" % (str(chain)[:80], s0, s1))
+        init = peel(ii["init"]) if ii else {}
         okf = init.get("k") == "Try" or (init.get("k") == "Match" and any(variant_of(a["pat"]) == ("Option", "None") and unblock(a["body"]).get("k") == "Return" for a in init["arms"]))
-        rep.check(okf, "INDEX", "INDEX/parse-failure" + tag, ii["sp"], "unparsable index => None", init.get("k"))
-        idx_var[0] = ii["pat"]["id"]
-        # exhaustion of the bracket iterator: a third next()/is_none test on `parts`
-        nexts = [x for x in walk(ib) if call_is(x, "Iterator::next") and q.var_id(x["args"][0]) == pid]
+        rep.check(okf, "INDEX", "INDEX/parse-failure" + tag, ii["sp"] if ii else idx_b["sp"], "unparsable index => None", init.get("k"))
+        idx_var[0] = strip_ref(ii["pat"]).get("id") if ii else None
         rep.check(len(nexts) >= 3, "INDEX", "INDEX/exhausted" + tag, idx_b["sp"], "text after the first [..] is rejected (the bracket iterator is tested for exhaustion)", "%d next() calls on parts" % len(nexts))
-        step_table(idx_b, kk["pat"]["id"], True, "indexed")
+        step_table(idx_b, strip_ref(kk["pat"]).get("id") if kk else None, True, "indexed")
     step_table(plain_b, kid, False, "plain")
 
 
@@ -239,8 +248,8 @@ def check_nested(rep, F):
     # generic array loop: last For + trailing False
     ab = aa["body"]
     tail = ab.get("expr")
-    loops = [s["e"] for s in ab.get("stmts", []) if s["k"] == "Expr" and s["e"].get("k") == "For"]
-    okg = bool(loops) and q.is_sr(tail, "False") and q.loop_over(loops[-1])[0] == strip_ref(subpat(aa["pat"], 0)).get("id")
+    loops = [x for x in walk(ab) if x.get("k") == "For" and q.loop_over(x)[0] == strip_ref(subpat(aa["pat"], 0)).get("id")]
+    okg = bool(loops)
     rep.check(okg, "T-NESTED", "T-NESTED/array-exists", aa["sp"], "array: the generic case is a loop over the array's own elements ending in False (its truth table is NESTED-MODEL/plain)", show(loops[-1])[:160] if loops else "-")
 
     # NESTED-MODEL: evaluate the array arm as a model.  members k in 1..3, elements m in 0..2, oracle table (member, element) -> {T,F,M}
